@@ -12,8 +12,8 @@ CONSTANTS
  MaxByz = 0
  Faults <- FApi
  MaxFault = 1
- Tampers <- TAll
- MaxTamper = 2
+ Tampers <- TSig
+ MaxTamper = 1
  Plants <- PNone
  MaxPlant = 0
  Ticks <- TkNone
@@ -23,7 +23,7 @@ CONSTANTS
  NodeWatch = TRUE
  MaxNode = 1
  Policy = "free"
-INVARIANTS Safety ViewNewest TimerSane
-PROPERTIES MCFetchWritesGood MCFileStable MCNodeKeeps MCSignJoins
+INVARIANTS Safety ViewNewestButD1 TimerSane
+PROPERTIES MCFetchWritesGoodButD1 MCFileStable MCNodeKeeps MCSignJoins
 VIEW View
 CHECK_DEADLOCK FALSE
